@@ -453,6 +453,17 @@ func init() {
 					}
 				}
 				cs = append(cs, fw.Case{ID: "race/chip-cache", Kind: "race", P: map[string]any{}})
+				// circuits of every size under the commitment-based mechanism: gnark's checker picks
+				// its limb width from the number of checks, and a 32-bit check is only exact when
+				// that width divides 32; such a circuit must be refused or checked exactly
+				for _, exec := range []string{"engine", "r1cs", "scs"} {
+					for _, pad := range []int{0, 20, 100, 3000, 40000} {
+						if ctx.Quick && exec == "scs" && pad != 100 {
+							continue
+						}
+						cs = append(cs, fw.Case{ID: fmt.Sprintf("midsize/%s/%d", exec, pad), Kind: "midsize", P: map[string]any{"exec": exec, "pad": pad}})
+					}
+				}
 				// engine Plain face (no env var): the third selection branch
 				add("engine", "plain", "gl", 0, "")
 				for _, n := range widthsFor("plain", "engine") {
@@ -484,6 +495,63 @@ func init() {
 						o.Events += int(v)
 					}
 					o.Sample = map[string]any{"race_build": work, "reports": reports}
+					return o
+				}
+				if c.Kind == "midsize" {
+					exec, pad := c.Str("exec"), c.Int("pad")
+					fn := c06BitsGadget(32)
+					vals := []*big.Int{bu(0), bu(1<<32 - 1), pow2(32), new(big.Int).Add(pow2(32), big.NewInt(5)), pow2(33), pow2(35), pow2(40), pow2(44), pow2(47), pow2(63), new(big.Int).Sub(bigR, big.NewInt(1))}
+					refused, acc, rej := false, 0, 0
+					if exec == "engine" {
+						for _, v := range vals {
+							v := v
+							res := harnRunCommitPaddedOpt(engine.Options{Face: engine.Commit}, func(api frontend.API) { fn(api, []frontend.Variable{v}) }, pad)
+							o.Events += events(res) + 1
+							if res.Verdict == engine.Refuse {
+								refused = true
+								break
+							}
+							if res.Verdict == engine.Accept && v.BitLen() > 32 {
+								return fw.Violate("accepts_out_of_range:engine:commit:midsize", fmt.Sprintf("circuit with %d further 32-bit checks: value %s passes a 32-bit check", pad, v))
+							}
+							if res.Verdict != engine.Accept && v.BitLen() <= 32 {
+								return fw.Violate("rejects_in_range:engine:commit:midsize", fmt.Sprintf("circuit with %d further 32-bit checks: value %s: %s", pad, v, resStr(res)))
+							}
+							if res.Verdict == engine.Accept {
+								acc++
+							} else {
+								rej++
+							}
+						}
+					} else {
+						cc, err := gadget.Compile(exec, fn, 1, 0, pad, nil)
+						if err != nil {
+							refused = true
+						} else {
+							for _, v := range vals {
+								err := cc.Solve([]*big.Int{v}, nil)
+								o.Events++
+								if err == nil && v.BitLen() > 32 {
+									return fw.Violate("accepts_out_of_range:"+exec+":commit:midsize", fmt.Sprintf("compiled circuit with %d further 32-bit checks (%d constraints): value %s passes a 32-bit check", pad, cc.CS.GetNbConstraints(), v))
+								}
+								if err != nil && v.BitLen() <= 32 {
+									return fw.Violate("rejects_in_range:"+exec+":commit:midsize", fmt.Sprintf("compiled circuit with %d further 32-bit checks: value %s: %v", pad, v, trunc(err.Error(), 100)))
+								}
+								if err == nil {
+									acc++
+								} else {
+									rej++
+								}
+							}
+						}
+					}
+					if refused {
+						o.Inc("midsize_refused_" + exec)
+					} else {
+						o.Inc("midsize_exact_" + exec)
+					}
+					o.Events++
+					o.Sample = map[string]any{"exec": exec, "further_checks": pad, "refused_at_definition": refused, "accepted": acc, "rejected": rej}
 					return o
 				}
 				exec, mech, gad, n := c.Str("exec"), c.Str("mech"), c.Str("gadget"), c.Int("n")
